@@ -73,7 +73,8 @@ void create_one() {
   case O_LIST: { PList *l = nullptr; int n = 1 + (int)gen(4); for (int i = 0; i < n; i++) l = p_list_append(l, (ppointer)(intptr_t)(i + 1)); add(t, l); break; }
   case O_HASH: { PHashTable *h = p_hash_table_new(); if (h) for (int i = 0; i < 4; i++) p_hash_table_insert(h, (ppointer)(intptr_t)(i * 101 + 1), (ppointer)(intptr_t)i); add(t, h); break; }
   case O_TREE: { PTree *tr = p_tree_new_full((PTreeType)gen(3), cmp_key, nullptr, p_free, p_free); add(t, tr); break; }
-  case O_INI: { ensure_files(); PIniFile *f = p_ini_file_new((g_tmpdir + (gen(5) == 0 ? "/missing.ini" : "/a.ini")).c_str()); add(t, f); break; }
+  case O_INI: { ensure_files(); static const char *ini_paths[] = {"/a.ini", "/a.ini", "/a.ini", "/missing.ini", "/dir"};      // a directory opens, every read of it fails
+                PIniFile *f = p_ini_file_new((g_tmpdir + ini_paths[gen(5)]).c_str()); add(t, f); break; }
   case O_CHASH: add(t, p_crypto_hash_new((PCryptoHashType)gen(P_CRYPTO_HASH_TYPE_GOST + 1))); break;
   case O_ERR: add(t, p_error_new_literal(1, 2, "some message")); break;
   case O_DIR: { ensure_files(); add(t, p_dir_new((g_tmpdir + (gen(5) == 0 ? "/nodir" : "/dir")).c_str(), &e)); break; }
